@@ -107,7 +107,8 @@ def se_job():
 def expl_job(W):
     return Job('getConflictingBounds.S%d' % W, 'src/tsolvers/lasolver/Simplex.cc', 'opensmt::Simplex::getConflictingBounds', tier='S', width=W, header='contracts/C26/farkas.h', pre_includes=('stubs/gmp_types.h', 'stubs/std_types.h', 'contracts/C26/types.h'), harness=H,
                 enforce=False, aux_tu=C15.TU, stubs=C15.POOL_STUBS, opaque=('opensmt::Simplex', 'opensmt::LRAModel', 'opensmt::Tableau', 'opensmt::LABoundStore'),
-                defines=('OSMT_GMP_EXACT', 'OSMT_CHECK_WF_ASSERTS', 'C26_EXPL'), unwindset=C15.S_UNWIND(W) + ('sp_coprime.0:56',), default_unwind=8, min_obligations=5, timeout=1200, object_bits=12,
+                defines=('OSMT_GMP_EXACT', 'OSMT_CHECK_WF_ASSERTS', 'C26_EXPL'),
+                expected_wrap=(('absVal__word', 'type conversion'), ('absVal__lword', 'type conversion'), ('absVal__word', 'unary minus'), ('absVal__lword', 'unary minus')), unwindset=C15.S_UNWIND(W) + ('sp_coprime.0:56',), default_unwind=8, min_obligations=5, timeout=1200, object_bits=12,
                 bounded_note='rows of at most 3 terms with pairwise different variables; every coefficient representable at word width %d, GMP-held coefficients through the exact scaled GMP model' % W,
                 proves='the row-based explanation has positive coefficients and its weighted sum cancels every row variable against the violated bound of the basic variable')
 def jobs(tier):
